@@ -65,6 +65,8 @@ def cases(rng, tier):
         out.append({"f": "like", "lens": lens, "which": rng.choice(["zeros", "ones", "empty"]), "dtype": dt(), "vseed": vs})
         out.append({"f": "nonzero", "lens": lens, "mask": _rand_mask(rng, lens), "dtype": rng.choice(["bool", "int64", "uint8", "float64"]), "vseed": vs})
         out.append({"f": "where", "lens": lens, "mask": _rand_mask(rng, lens), "y": rng.choice(["ragged", "scalar"]), "dtype": dt(), "vseed": vs})
+        # x and y ragged with DIFFERENT dtypes: the result has numpy's promoted dtype, cell by cell
+        out.append({"f": "where", "lens": lens, "mask": _rand_mask(rng, lens), "y": "ragged", "dtype": dt(), "ydtype": dt(), "vseed": vs})
         for f in ("subset", "mask_index"):
             out.append({"f": f, "lens": lens, "mask": _rand_mask(rng, lens), "dtype": dt(), "vseed": vs})
         for _ in range(2):
@@ -192,6 +194,8 @@ def run_impl(p):
                 m = RaggedArray(mflat, list(p["lens"]))
                 if f == "where":
                     y = RaggedArray(s[n:2 * n].copy(), list(p["lens"])) if p["y"] == "ragged" else s[2 * n].item()
+                    if "ydtype" in p:
+                        y = RaggedArray(gens.cell_values(p["ydtype"], n, random.Random(p["vseed"] + 1)), list(p["lens"]))
                     return np.where(m, ra, y)
                 if f == "subset":
                     return ra.subset(m)
@@ -249,6 +253,13 @@ def oracle(p):
     if f == "nonzero":
         rc = [(i, j) for i, row in enumerate(p["mask"]) for j, b in enumerate(row) if b]
         return canon([[i for i, _ in rc], [j for _, j in rc]])
+    if f == "where" and "ydtype" in p:
+        yv = gens.cell_values(p["ydtype"], n, random.Random(p["vseed"] + 1))
+        mflat = np.array([b for row in p["mask"] for b in row], dtype=bool)
+        with np.errstate(all="ignore"), warnings.catch_warnings():
+            warnings.simplefilter("ignore")
+            flat = np.where(mflat, s[:n], yv)
+        return _ra(_rows_from(flat, p["lens"]), flat.dtype)
     if f == "where":
         yrows = _rows_from(s[n:2 * n], p["lens"]) if p["y"] == "ragged" else None
         ysc = s[2 * n]
@@ -296,6 +307,8 @@ def lean_request(p):
         return {"op": "C08.struct", "f": "like", "rows": rows, "c": 0 if p["which"] == "zeros" else 1}
     if f == "nonzero":
         return {"op": "C08.struct", "f": "nonzero", "rows": p["mask"]}
+    if f == "where" and "ydtype" in p:
+        return None
     if f == "where":
         y = [[i + n for i in r] for r in rows] if p["y"] == "ragged" else 2 * n
         return {"op": "C08.struct", "f": "where", "mask": p["mask"], "x": rows, "y": y, "column": False}
